@@ -20,12 +20,12 @@ for m in idx:
     r = {'applied': p.returncode == 0}
     if p.returncode == 0:
         env = dict(os.environ, CARGO_TARGET_DIR=os.environ.get('AUDIT_TARGET', '/tmp/mutant-target'), CARGO_NET_OFFLINE='true', RUSTFLAGS='-Awarnings')
-        feat = ['--features', 'sdp,blas-src,lapack-src'] if ('psd' in name or 'connect_graph' in name or 'clique' in name or 'reverse_compact' in name or 'merge_loop' in name or 'standard_H' in name or 'parent_child' in name or 'sortperm' in name or 'block_indices' in name) else []
+        feat = ['--features', 'sdp,blas-src,lapack-src'] if ('psd' in name or 'connect_graph' in name or 'clique' in name or 'reverse_compact' in name or 'merge_loop' in name or 'standard_H' in name or 'parent_child' in name or 'sortperm' in name or 'block_indices' in name or name.startswith('chordal_')) else []
         c = subprocess.run(['cargo', 'check', '--offline', '--lib'] + feat, cwd=repo, env=env, stdout=subprocess.PIPE, stderr=subprocess.STDOUT, text=True)
         r['compiles'] = c.returncode == 0
         if c.returncode == 0:
             env2 = dict(os.environ, VERIF_REPO=repo, VERIF_TAG='-ben-' + name)
-            o = subprocess.run([os.path.join(V, 'bin/run_all.py')], env=env2, stdout=subprocess.PIPE, stderr=subprocess.STDOUT, text=True).stdout
+            o = subprocess.run([os.path.join(V, 'bin/run_all.py')] + os.environ.get('BENIGN_PROPS', '').split(), env=env2, stdout=subprocess.PIPE, stderr=subprocess.STDOUT, text=True).stdout
             fired = [l for l in o.splitlines() if l.startswith('FIRED:')]
             r['fired'] = fired[0][7:].strip() if fired else '?'
             r['details'] = [l.strip()[:220] for l in o.splitlines() if l.startswith('    ')][:6]
